@@ -35,12 +35,12 @@ def mini_model(prov, req, inj, with_mc=False):
     return {'doc': doc, 'encapsulee': ['N', 'Comp'], 'file': 'M.dzn'}
 
 
-def lib_side(sts, mts, ports, label):
+def lib_side(sts, mts, ports, label, form=None):
     """(verdict, detail) of the library for one side through PortsSemanticsCfg.match."""
     from dznpy.adv_shell import PortsSemanticsCfg  # pylint: disable=import-outside-toplevel
     from dznpy.adv_shell.types import AdvShellError, RuntimeSemantics  # pylint: disable=import-outside-toplevel
     try:
-        cfg = PortsSemanticsCfg(sts=B.mk_select(sts), mts=B.mk_select(mts))
+        cfg = PortsSemanticsCfg(sts=B.mk_select(sts, form), mts=B.mk_select(mts, form))
         res = cfg.match(set(ports), label)
     except AdvShellError as exc:
         return 'REJECT', type(exc).__name__
@@ -49,10 +49,10 @@ def lib_side(sts, mts, ports, label):
     return 'ACCEPT', {k: ('STS' if v == RuntimeSemantics.STS else 'MTS') for k, v in res.items()}
 
 
-def lib_build(model, psel, rsel, mc=None):
+def lib_build(model, psel, rsel, mc=None, form=None):
     from dznpy.adv_shell.types import AdvShellError  # pylint: disable=import-outside-toplevel
     try:
-        files = B.build(model, {'provides': psel, 'requires': rsel, 'fac': 'create',
+        files = B.build(model, {'provides': psel, 'requires': rsel, 'fac': 'create', 'names_form': form,
                                 'mc': {'port': mc, 'claim': 'Claim', 'grant': 'Ok', 'release': 'Release'} if mc else None})
     except AdvShellError as exc:
         return 'REJECT', type(exc).__name__, None
@@ -78,7 +78,7 @@ def judge(case):
         side, sts, mts, ports, inj = case['side'], case['sts'], case['mts'], case['ports'], case['inj']
         # a single side does not know whether it is the provides side: the 'mixed' rule is judged end-to-end
         want = R.resolve_side('requires', sts, mts, ports, inj)
-        got = lib_side(sts, mts, list(ports) + list(inj), side)
+        got = lib_side(sts, mts, list(ports) + list(inj), side, case.get('form'))
         desc = f'{side}: sts={sts} mts={mts} ports={ports} injected={inj} -> library {got}, reference {want}'
         if got[0] == 'CRASH':
             out.append((f'side-crash:{got[1].split(":")[0]}', desc))
@@ -105,7 +105,7 @@ def judge(case):
         elif wp[0] == 'ACCEPT' and wp[1][mc] != 'MTS':
             wp = ('REJECT', 'mc:port-not-mts')
     model = mini_model(prov, req, inj, bool(mc))
-    verdict, detail, nfiles = lib_build(model, psel, rsel, mc)
+    verdict, detail, nfiles = lib_build(model, psel, rsel, mc, case.get('form'))
     desc = (f'ports provides={prov} requires={req} injected={inj}; provides(sts={psel[0]}, mts={psel[1]}) '
             f'requires(sts={rsel[0]}, mts={rsel[1]}) multi-client={mc} -> library {verdict} {detail}; '
             f'reference {wp} / {wr}')
@@ -223,6 +223,7 @@ def side_cases(thorough):
     for sts, mts in itertools.product(R.selections(own_p + ['u', own_r[0]]), repeat=2):
         for ports in R.subsets(own_p):
             yield {'kind': 'side', 'side': 'provides', 'sts': sts, 'mts': mts, 'ports': ports, 'inj': []}
+            yield {'kind': 'side', 'side': 'provides', 'sts': sts, 'mts': mts, 'ports': ports, 'inj': [], 'form': 'subclass'}
     for sts, mts in itertools.product(R.selections(own_r + ['u', own_p[0], 'i']), repeat=2):
         for ports in R.subsets(own_r):
             for inj in ([], ['i'], ['i', 'j', 'k']):
@@ -260,6 +261,9 @@ def equal_selection_cases(thorough):
             for req in R.subsets(own_r[:2]):
                 for inj in ([], ['i'], ['i', 'j', 'k']):
                     yield {'kind': 'e2e', 'prov': prov, 'req': req, 'inj': inj, 'psel': [sts, mts], 'rsel': [sts, mts]}
+                    # REPRESENTATION: the names of the selections as instances of a str subclass with its own __str__
+                    yield {'kind': 'e2e', 'prov': prov, 'req': req, 'inj': inj, 'psel': [sts, mts], 'rsel': [sts, mts],
+                           'form': 'subclass'}
 
 
 def class_cross_cases(thorough):
